@@ -542,6 +542,16 @@ def send (_t : Transport) (tgt : Target) (m : Msg) : Frame :=
                appId := m.appId, clusterId := m.clusterId },
     mandatory := m.mandatory }
 
+/-- a run of sends through one Producer.  `ms` are the Messages in the order they were built, `order` lists —
+in the order the frames go on the wire — the indices of the messages: a direct `send` publishes at once, a
+`send(threadsafe=True)` (what the REST front end does from its own thread) publishes when the connection's loop
+gets round to its callback, possibly after later Messages were built, given a subject and sent.  Every `Message`
+carries its own state (`Msg` is a value: its application properties, and with them its subject, are its own —
+`Message.__init__` gives each Message built without `properties` a fresh map), so the frame of message `i` is
+`send` of that message, whenever it is published and whatever else was built or sent in between. -/
+def sendSeq (t : Transport) (tgt : Target) (ms : List Msg) (order : List Nat) : List (Nat × Frame) :=
+  order.filterMap (fun i => (ms[i]?).map (fun m => (i, send t tgt m)))
+
 /-- `Consumer.message_listener`: the Message built from a delivery -/
 def deliver (_t : Transport) (f : Frame) (tag : Nat) (redelivered : Bool) : Msg :=
   { body := f.body, properties := f.props.headers, contentType := f.props.contentType,
